@@ -10,10 +10,11 @@
 //!
 //! `c19.file`: the REAL binary (/verif/.work/target/bin/release/gb-dynarec, built by the runner from /repo) on
 //!   generated files under /verif/.work/c19/.
-//!   line: c19.file kind=<file|missing> hdr=<hex> len=<n> pb=<probe bank> | out=<stdout prefix hex> err=<stderr prefix hex> status=<alive|exit:N|sig:N>
+//!   line: c19.file kind=<file|missing> hdr=<hex> len=<n> pb=<bank number selected> mk=<bank holding the marker> | out=<stdout prefix hex> err=<stderr prefix hex> status=<alive|exit:N|sig:N>
 //!   File = zeros, header at 0x100 (entry: NOP; JP 0x150), probe at 0x150: select ROM bank `pb` with the
 //!   standard MBC1 / MBC3 register writes, LD A,(0x7FFF), print A, 'K', '\n' on the serial port, loop forever.
-//!   'Z' at offset 0x4000*pb+0x3FFF = the last byte of the last declared (reachable) bank.  Files are sparse
+//!   'Z' at offset 0x4000*mk+0x3FFF: mk = pb = the last declared (reachable) bank, or, in the wrap cases, pb >= the
+//!   declared count and mk = the bank the controller must reduce it to.  Files are sparse
 //!   (set_len) and removed after each run.  The run is observed until the terminal marker ("K\n", or the
 //!   fallback line after a rejection) plus a grace period, or death, or the deadline; then killed.
 use crate::cart::{CartState, Header};
@@ -185,7 +186,8 @@ fn run_hdr(opts: &Opts, w: &mut dyn Write) {
 // ---------------------------------------------------------------- c19.file
 
 #[derive(Clone)]
-struct Case { missing: bool, hdr: [u8; 80], len: u64, pb: usize }
+/// `pb`: the bank NUMBER the probe writes to the controller's registers; `mk`: the bank of the file whose last byte is 'Z'
+struct Case { missing: bool, hdr: [u8; 80], len: u64, pb: usize, mk: usize }
 
 /// bank counts of the cartridge-header standard (test-input generation only)
 fn std_banks(code: u8) -> Option<usize> {
@@ -276,7 +278,20 @@ fn file_header(rng: &mut Rng, typ: u8, romcode: u8, ramcode: u8) -> [u8; 80] {
 }
 
 fn mk_case(hdr: [u8; 80], len: u64) -> Case {
-  Case { missing: false, hdr, len, pb: probe_bank(hdr[OFF_TYPE], hdr[OFF_ROM]) }
+  let pb = probe_bank(hdr[OFF_TYPE], hdr[OFF_ROM]);
+  Case { missing: false, hdr, len, pb, mk: pb }
+}
+
+/// a bank NUMBER beyond the declared count: the controller reduces it to the cartridge's size (C12), so the probe
+/// must read the marker in bank `number mod count` - and never leave the mapped file
+fn wrap_case(hdr: [u8; 80], len: u64, sel: usize) -> Case {
+  let banks = std_banks(hdr[OFF_ROM]).unwrap_or(2);
+  let eff = match hdr[OFF_TYPE] {
+    0x01..=0x03 => if sel & 0x1f == 0 { sel + 1 } else { sel },
+    0x0f..=0x13 => if sel & 0x7f == 0 { 1 } else { sel & 0x7f },
+    _ => 1,
+  };
+  Case { missing: false, hdr, len, pb: sel, mk: eff % banks }
 }
 
 fn declared(romcode: u8) -> u64 { (std_banks(romcode).unwrap_or(2) * 0x4000) as u64 }
@@ -293,7 +308,7 @@ fn gen_cases(opts: &Opts) -> Vec<Case> {
   let mut cs: Vec<Case> = Vec::new();
   let t = opts.thorough;
   // (a) a path that does not exist
-  cs.push(Case { missing: true, hdr: file_header(&mut rng, 1, 0, 0), len: 0, pb: 1 });
+  cs.push(Case { missing: true, hdr: file_header(&mut rng, 1, 0, 0), len: 0, pb: 1, mk: 1 });
   // (a') titles that are not UTF-8, valid checksum, complete file of a supported type: must load
   for (k, bt) in BAD_TITLES.iter().enumerate() {
     let typ = [0x00u8, 0x01, 0x13][k % 3];
@@ -345,6 +360,19 @@ fn gen_cases(opts: &Opts) -> Vec<Case> {
       if t { ls.push(d + 0x4000); ls.push(0x150); }
       ls.sort(); ls.dedup();
       for l in ls { cs.push(mk_case(h, l)); }
+    }
+  }
+  // (e') bank numbers beyond the declared count on complete files: every size code with fewer than 128 banks,
+  // both controllers; numbers just past the count, the largest the registers hold, and random ones in between
+  for &rc in [0u8, 1, 2, 3, 4, 5, 0x52, 0x53, 0x54].iter() {
+    let banks = std_banks(rc).unwrap();
+    for &typ in [0x01u8, 0x13, 0x03, 0x11].iter().take(if t { 4 } else { 2 }) {
+      let ram = rng.u8() % 6;
+      let h = file_header(&mut rng, typ, rc, ram);
+      let mut sels = vec![banks, banks + 1, banks + 2, 127, banks + rng.below((128 - banks) as u64) as usize];
+      if t { for _ in 0..4 { sels.push(banks + rng.below((128 - banks) as u64) as usize); } }
+      sels.sort(); sels.dedup();
+      for sel in sels { cs.push(wrap_case(h, declared(rc), sel)); }
     }
   }
   // (f) random headers with a valid checksum over the standard's codes, random lengths near the declared size
@@ -399,7 +427,7 @@ fn write_rom(path: &PathBuf, c: &Case) -> std::io::Result<()> {
   };
   put(0x100, &c.hdr)?;
   put(0x150, &probe_code(c.hdr[OFF_TYPE], c.pb))?;
-  put((0x4000 * c.pb + 0x3fff) as u64, &[0x5a])?;
+  put((0x4000 * c.mk + 0x3fff) as u64, &[0x5a])?;
   Ok(())
 }
 
@@ -455,8 +483,8 @@ fn run_case(bin: &PathBuf, dir: &PathBuf, tag: &str, c: &Case, deadline_ms: u64,
   let _ = std::fs::remove_file(&rom);
   let _ = std::fs::remove_file(&outp);
   let _ = std::fs::remove_file(&errp);
-  format!("c19.file kind={} hdr={} len={} pb={} | out={} err={} status={}",
-    if c.missing { "missing" } else { "file" }, hex(&c.hdr), c.len, c.pb, hex(&out), hex(&err), status)
+  format!("c19.file kind={} hdr={} len={} pb={} mk={} | out={} err={} status={}",
+    if c.missing { "missing" } else { "file" }, hex(&c.hdr), c.len, c.pb, c.mk, hex(&out), hex(&err), status)
 }
 
 fn run_file(opts: &Opts, w: &mut dyn Write) {
@@ -482,7 +510,8 @@ fn run_file(opts: &Opts, w: &mut dyn Write) {
     if v.len() != 80 { eprintln!("replay line has no 80-byte hdr="); std::process::exit(2); }
     let mut hdr = [0u8; 80];
     hdr.copy_from_slice(&v);
-    let c = Case { missing: tok("kind=") == "missing", hdr, len: tok("len=").parse().unwrap_or(0), pb: tok("pb=").parse().unwrap_or(1) };
+    let c = Case { missing: tok("kind=") == "missing", hdr, len: tok("len=").parse().unwrap_or(0), pb: tok("pb=").parse().unwrap_or(1),
+      mk: tok("mk=").parse().unwrap_or(tok("pb=").parse().unwrap_or(1)) };
     writeln!(w, "{}", run_case(&bin, &dir, &format!("r{}", pid), &c, deadline, grace)).unwrap();
     return;
   }
